@@ -357,6 +357,28 @@ def classify_failure(harness, model, seed, i, f):
             k += 1
         start = ml.rfind(',', 0, k) + 1
         return ml[start:].startswith('<ReferenceError>') and not gl[start:].startswith('<ReferenceError>')
+    def evalfn_mechanism():
+        # The known sloppy-direct-eval defect, by MECHANISM: placement eval, sloppy; goja raises
+        # `ReferenceError: X is not defined` for a let/const X declared at the top level of the same eval code and
+        # referenced from a top-level function declaration; and the twin program in which exactly those declarations
+        # are `var f = function (..){..}` statements hoisted to the top behaves, on goja, as the definitional
+        # semantics demands (and variant = original).  Anything else is not this finding.
+        if pl != 'eval' or strict:
+            return False
+        names = G.toplevel_lexicals_used_by_fdecls(var) | G.toplevel_lexicals_used_by_fdecls(prog)
+        if not names:
+            return False
+        import re
+        # (the diagnostic runs log every caught exception first, so that a ReferenceError swallowed by a catch clause
+        #  of the program is seen as well; their outcomes are not compared with anything)
+        g = run_harness(harness, [json.dumps({'id': 'v', 'src': placement_src(G.log_all_catches(var), pl), 'strict': False, 'timeout_ms': 3000}),
+                                  json.dumps({'id': 'o', 'src': placement_src(G.log_all_catches(prog), pl), 'strict': False, 'timeout_ms': 3000})])
+        blamed = set()
+        for k in ('v', 'o'):
+            blamed.update(re.findall(r'ReferenceError: ([A-Za-z_$][A-Za-z0-9_$]*) is not defined', g.get(k, {}).get('full', '')))
+        if not (blamed & names):
+            return False
+        return pair_ok(harness, model, G.hoist_fdecls_as_var(prog), G.hoist_fdecls_as_var(var), False, 'eval')
     try:
         if pair_ok(harness, model, prog, var, strict, pl):
             return None                      # does not reproduce in isolation: leave it unclassified
@@ -365,9 +387,8 @@ def classify_failure(harness, model, seed, i, f):
                                       json.dumps({'id': 'o', 'src': placement_src(prog, pl), 'strict': strict, 'timeout_ms': 3000})])
             if any(LEXDEAD_MSG in g.get(k, {}).get('full', '') for k in ('v', 'o')):
                 return SIG_LEXDEAD           # goja rejects the (valid) program with exactly this internal error
-        if SIG_EVALFN in KNOWN_SIGS and pl == 'eval' and not strict and (G.toplevel_fdecl_and_lexical(var) or G.toplevel_fdecl_and_lexical(prog)) \
-                and pair_ok(harness, model, prog, var, strict, 'global') and pair_ok(harness, model, prog, var, True, 'eval'):
-            return SIG_EVALFN                # only the sloppy direct-eval placement fails, and the pattern is present
+        if SIG_EVALFN in KNOWN_SIGS and evalfn_mechanism():
+            return SIG_EVALFN
         letters = 'VPDCBJRT'
         changed = {k: (apply(prog, k) != prog or apply(var, k) != var) for k in letters} if KNOWN_SIGS - {SIG_EVALFN} else \
             {k: False for k in letters}
@@ -383,12 +404,6 @@ def classify_failure(harness, model, seed, i, f):
                 sub = ''.join(sub)
                 if pair_ok(harness, model, apply(prog, sub), apply(var, sub), strict, pl):
                     return {'V': SIG_JUMPVALUE, 'P': SIG_FWDPARAM, 'D': SIG_DOWHILE, 'C': SIG_CONSTTDZ, 'B': SIG_BLOCKJUMP, 'T': SIG_FINALLY, 'J': SIG_JUMP, 'R': raw_sig()}[sub[0]]
-        # sloppy direct-eval defect combined with others: with every other trigger neutralised the sloppy eval
-        # placement still fails, while global placement and strict eval pass
-        if SIG_EVALFN in KNOWN_SIGS and pl == 'eval' and not strict and (G.toplevel_fdecl_and_lexical(var) or G.toplevel_fdecl_and_lexical(prog)):
-            np_, nv_ = apply(prog, letters), apply(var, letters)
-            if pair_ok(harness, model, np_, nv_, False, 'global') and pair_ok(harness, model, np_, nv_, True, 'eval'):
-                return SIG_EVALFN
     except Exception:
         return None
     return None
